@@ -34,6 +34,8 @@ type facts struct {
 	SQLStrings   [][3]string         `json:"sql_strings"`   // file, func, literal
 	LazyInit     [][3]string         `json:"lazy_init"`     // file, func, field
 	JSONTags     [][3]string         `json:"json_tags"`     // type, field, tag
+	InitCalls    [][3]string         `json:"init_calls"`    // file, func, method called on the receiver
+	LockUse      [][3]string         `json:"lock_use"`      // file, func, Lock|RLock|none
 	Misc         map[string]string   `json:"misc"`
 	files        map[string]*ast.File
 	fset         *token.FileSet
@@ -392,6 +394,59 @@ func (f *facts) jsonTags(repo, rel string, types ...string) {
 	})
 }
 
+// callsOnReceiver lists the methods a function calls on its own receiver.
+func (f *facts) callsOnReceiver(repo, rel, fn string) {
+	af := f.parse(repo, rel)
+	for _, d := range af.Decls {
+		fd, ok := d.(*ast.FuncDecl)
+		if !ok || fd.Body == nil || funcName(fd) != fn || fd.Recv == nil || len(fd.Recv.List[0].Names) == 0 {
+			continue
+		}
+		recv := fd.Recv.List[0].Names[0].Name
+		ast.Inspect(fd.Body, func(n ast.Node) bool {
+			ce, ok := n.(*ast.CallExpr)
+			if !ok {
+				return true
+			}
+			if se, ok := ce.Fun.(*ast.SelectorExpr); ok {
+				if id, ok := se.X.(*ast.Ident); ok && id.Name == recv {
+					f.InitCalls = append(f.InitCalls, [3]string{rel, fn, se.Sel.Name})
+				}
+			}
+			return true
+		})
+	}
+}
+
+// lockUse records, per method of a file, whether it takes the write lock, the read
+// lock, or none.
+func (f *facts) lockUse(repo, rel string) {
+	af := f.parse(repo, rel)
+	for _, d := range af.Decls {
+		fd, ok := d.(*ast.FuncDecl)
+		if !ok || fd.Body == nil || fd.Recv == nil {
+			continue
+		}
+		kind := "none"
+		ast.Inspect(fd.Body, func(n ast.Node) bool {
+			if ce, ok := n.(*ast.CallExpr); ok {
+				if se, ok := ce.Fun.(*ast.SelectorExpr); ok {
+					switch se.Sel.Name {
+					case "Lock":
+						kind = "Lock"
+					case "RLock":
+						if kind == "none" {
+							kind = "RLock"
+						}
+					}
+				}
+			}
+			return true
+		})
+		f.LockUse = append(f.LockUse, [3]string{rel, funcName(fd), kind})
+	}
+}
+
 func leanStr(s string) string { return strconv.Quote(s) }
 
 func main() {
@@ -439,6 +494,11 @@ func main() {
 	f.lazyInit(*repo, "internal/driver/registry_default.go")
 	f.lazyInit(*repo, "internal/driver/config/provider.go")
 	f.jsonTags(*repo, "ketoapi/public_api_definitions.go", "RelationTuple", "SubjectSet", "RelationQuery")
+	f.callsOnReceiver(*repo, "internal/driver/registry_default.go", "RegistryDefault.Init")
+	f.lockUse(*repo, "internal/driver/config/namespace_memory.go")
+	f.lockUse(*repo, "internal/driver/config/namespace_watcher.go")
+	f.lockUse(*repo, "internal/driver/config/opl_config_namespace_watcher.go")
+	f.lockUse(*repo, "internal/x/graph/graph_utils.go")
 
 	// ---- emit
 	var b strings.Builder
@@ -490,6 +550,8 @@ func main() {
 	table3("sqlStrings", f.SQLStrings)
 	table3("lazyInit", f.LazyInit)
 	table3("jsonTags", f.JSONTags)
+	table3("initCalls", f.InitCalls)
+	table3("lockUse", f.LockUse)
 	b.WriteString("\nend Keto.Facts\n")
 	if *out != "" {
 		if err := os.WriteFile(*out, []byte(b.String()), 0o644); err != nil {
